@@ -447,16 +447,22 @@ func c12Siblings(r *an.Run, m *runModel) {
 			calls = append(calls, an.CallsTo(g, importsProcess)...)
 		}
 		for _, c := range calls {
-			al, ok := c.Common().Args[2].(*ssa.Alloc)
-			if !ok {
+			lits := optionsLiterals(c)
+			if len(lits) == 0 {
 				return nil, c
 			}
 			out := map[string]string{}
-			for _, u := range *al.Referrers() {
-				if fa, ok := u.(*ssa.FieldAddr); ok {
-					for _, w := range *fa.Referrers() {
-						if st, ok := w.(*ssa.Store); ok {
-							out[fieldNameOf(fa)] = an.Describe(st.Val)
+			for _, al := range lits {
+				for _, u := range *al.Referrers() {
+					if fa, ok := u.(*ssa.FieldAddr); ok {
+						for _, w := range *fa.Referrers() {
+							if st, ok := w.(*ssa.Store); ok {
+								d := an.Describe(st.Val)
+								if prev, dup := out[fieldNameOf(fa)]; dup && prev != d {
+									d = prev + "|" + d
+								}
+								out[fieldNameOf(fa)] = d
+							}
 						}
 					}
 				}
@@ -491,7 +497,7 @@ func c12Siblings(r *an.Run, m *runModel) {
 		}
 		if good {
 			// the bytes processed are the printer's buffer
-			good = derivesFromAcross(procs[0].Common().Args[1], an.Unwrap(fnodes[0].Common().Args[0]))
+			good = derivesFromAcrossIn(f, procs[0].Common().Args[1], an.Unwrap(fnodes[0].Common().Args[0]))
 		}
 		r.Check(good, short(f)+"|format-then-process", f.Pos(), "%s prints with format.Node and hands exactly that buffer to imports.Process", short(f))
 	}
